@@ -616,7 +616,9 @@ AbuseTable ==
      reentrant_goclose_via_scope |-> AOK, reentrant_goclose_via_parent |-> AOK, reentrant_goclose_via_provider |-> AOK,
      reentrant_resolve_while_closing |-> AOK, reentrant_create_while_closing |-> AOK,
      reentrant_resolve_in_ctor |-> AOK, reentrant_child_scope_in_ctor |-> AOK,
-     reentrant_provider_close_from_singleton |-> AOK]
+     reentrant_provider_close_from_singleton |-> AOK,
+     \* a result object whose constructor leaves a non-last field nil: every other field keeps exactly its own identity
+     out_nil_field_scoped |-> AOK, out_nil_field_transient |-> AOK, out_nil_field_singleton |-> AOK]
 \* calls of the battery that also speak for other properties
 ReClose == {"C12", "C13", "C10"}
 AbuseTags == [value_disposables_closed |-> {"C10", "C12"},
@@ -624,7 +626,8 @@ AbuseTags == [value_disposables_closed |-> {"C10", "C12"},
               reentrant_goclose_via_scope |-> ReClose, reentrant_goclose_via_parent |-> ReClose, reentrant_goclose_via_provider |-> ReClose,
               reentrant_resolve_while_closing |-> {"C13"}, reentrant_create_while_closing |-> {"C13"},
               reentrant_resolve_in_ctor |-> {"C02", "C10"}, reentrant_child_scope_in_ctor |-> {"C02", "C10"},
-              reentrant_provider_close_from_singleton |-> ReClose]
+              reentrant_provider_close_from_singleton |-> ReClose,
+              out_nil_field_scoped |-> {"C04"}, out_nil_field_transient |-> {"C04"}, out_nil_field_singleton |-> {"C04", "C01"}]
 TagsOfAbuse(call) == {"C15"} \cup (IF call \in DOMAIN AbuseTags THEN AbuseTags[call] ELSE {})
 
 GuardsAbuse(e) ==
